@@ -656,7 +656,13 @@ _log_filter_store(uint32_t t, enum qb_log_filter_conf c,
 			    (strcmp(flt->text, text) == 0 ||
 			     strcmp("*", text) == 0)) {
 				qb_list_del(iter);
-				_log_free_filter(flt);
+				if (new) {
+					/* the caller frees it once the call
+					 * sites have been re-evaluated */
+					*new = flt;
+				} else {
+					_log_free_filter(flt);
+				}
 				return 0;
 			}
 		}
@@ -698,6 +704,7 @@ _log_filter_apply_to_cs(struct qb_log_callsite *cs,
 			regex_t *regex,
 			uint8_t high_priority, uint8_t low_priority)
 {
+	struct qb_log_filter *flt;
 
 	if (c == QB_LOG_FILTER_CLEAR_ALL) {
 		qb_bit_clear(cs->targets, t);
@@ -716,10 +723,25 @@ _log_filter_apply_to_cs(struct qb_log_callsite *cs,
 			qb_bit_set(cs->targets, t);
 		} else if (c == QB_LOG_FILTER_REMOVE) {
 			qb_bit_clear(cs->targets, t);
+			/* the filters that remain may still select it */
+			qb_list_for_each_entry(flt, &conf[t].filter_head, list) {
+				_log_filter_apply_to_cs(cs, t, flt->conf, flt->type,
+							flt->text, flt->regex,
+							flt->high_priority,
+							flt->low_priority);
+			}
 		} else if (c == QB_LOG_TAG_SET) {
 			cs->tags = t;
 		} else if (c == QB_LOG_TAG_CLEAR) {
 			cs->tags = 0;
+			/* the tag filters that remain may still tag it */
+			qb_list_for_each_entry(flt, &tags_head, list) {
+				_log_filter_apply_to_cs(cs, flt->new_value,
+							flt->conf, flt->type,
+							flt->text, flt->regex,
+							flt->high_priority,
+							flt->low_priority);
+			}
 		}
 #ifdef _QB_FILTER_DEBUGGING_
 		if (old_targets != cs->targets) {
@@ -776,6 +798,10 @@ qb_log_filter_ctl2(int32_t t, enum qb_log_filter_conf c,
 	}
 	qb_list_for_each_entry(sect, &callsite_sections, list) {
 		_log_filter_apply(sect, t, c, type, text, regex, high_priority, low_priority);
+	}
+	if ((c == QB_LOG_FILTER_REMOVE || c == QB_LOG_TAG_CLEAR) && new_flt) {
+		/* the filter that was taken off the list */
+		_log_free_filter(new_flt);
 	}
 	pthread_rwlock_unlock(&_listlock);
 	return 0;
